@@ -39,6 +39,9 @@ def trM : Nat → Val → Option Val
   | 11, .struct [.str a, .str b] => some (.str (a ++ [30] ++ b))
   | 12, .struct [x, y] => some (.struct [x, y])
   | 13, .str s => some (.str ([99, 47] ++ s))
+  | 14, .struct [x] => some x
+  | 15, .struct [y] => some (.struct [y])
+  | 16, .struct [z] => some (.ptr (some z))
   | _, _ => none
 
 def trU : Nat → Val → Option Val
@@ -55,6 +58,10 @@ def trU : Nat → Val → Option Val
   | 11, .str s => (splitAt 30 s []).map fun (a, b) => .struct [.str a, .str b]
   | 12, .struct [x, y] => some (.struct [x, y])
   | 13, .str s => (match s with | 99 :: 47 :: rest => some (.str rest) | _ => none)
+  | 14, x => some (.struct [x])
+  | 15, .struct [y] => some (.struct [y])
+  | 16, .ptr (some z) => some (.struct [z])
+  | 16, .ptr none => some (.struct [.str []])
   | _, _ => none
 
 def trLib : Trs := ⟨trM, trU⟩
